@@ -97,7 +97,8 @@ def real_solver_search(rep, rng, n):
     methods = ["auto", "SLSQP", "trust-constr", "L-BFGS-B", "BFGS", "Nelder-Mead", "COBYLA", "TNC", "Powell", "CG", "linprog", "highs", "highs-ds"]
     for i in range(n):
         kinds = ["feasible", "infeasible", "bounds", "lp_infeasible", "bound_only", "lp_zero_row", "nlp_zero_row", "lp_eq_infeasible",
-                 "bound_and_looser_row", "objective_swap", "lp_strided_views", "upper_bound_zero", "diverging"]
+                 "bound_and_looser_row", "objective_swap", "lp_strided_views", "upper_bound_zero", "diverging", "one_expression_two_senses",
+                 "lp_box_only_zero_cost"]
         kind = kinds[i % len(kinds)]
         x = VectorVariable(f"s{i}", rng.randint(1, 3), lb=rng.choice([None, 0, -1]), ub=rng.choice([None, 2, 5]))
         P = Problem()
@@ -153,6 +154,29 @@ def real_solver_search(rep, rng, n):
                 v.lb, v.ub = None, None
             sgn = -1 if (i // len(kinds)) % 2 == 0 else 1
             P.minimize(x.sum() * sgn).subject_to(x.sum() >= 3).subject_to(x.sum() <= 1)
+        elif kind == "one_expression_two_senses":
+            # ONE expression object held by two constraints of different sense (a range lo <= g <= hi written with the public
+            # Constraint class): each relation is enforced and scanned on its own
+            from optyx import Constraint as _C
+            for v in x:
+                v.lb, v.ub = None, 6.0
+            g = x.sum() - 1.0
+            h = g * 1.0
+            pair = [(">=", "<="), ("<=", ">="), ("==", "<="), (">=", "==")][(i // len(kinds)) % 4]
+            P.minimize(((x - 3) ** 2).sum()).subject_to(_C(g, pair[0])).subject_to(_C(g, pair[1]))
+            if (i // len(kinds)) % 2:
+                P.subject_to([_C(h, "<="), _C(h, ">=")])
+        elif kind == "lp_box_only_zero_cost":
+            # a linear objective, NO constraints, only a box that excludes 0 - and a variable whose cost coefficient is exactly 0
+            # (a zero entry, 0 * y, or cancelling terms): it still has to sit inside its bounds
+            from optyx import VectorVariable as _VVb
+            xb = _VVb(f"b{i}", 3, lb=rng.choice([1.0, 0.5]), ub=4.0)
+            form = (i // len(kinds)) % 4
+            costs = [lambda: np.array([2.0, 0.0, -1.0]) @ xb, lambda: 2 * xb[0] + 0 * xb[1] - xb[2], lambda: xb[0] + xb[1] - xb[1] - xb[2],
+                     lambda: np.array([0.0, 0.0, 0.0]) @ xb + xb[2]][form]()
+            if form % 2:
+                xb[1].lb, xb[1].ub = -3.0, -1.0
+            (P.maximize if (i // len(kinds)) % 3 == 1 else P.minimize)(costs)
         elif kind == "upper_bound_zero":
             # a bound that is exactly 0 is a bound
             x[0].lb, x[0].ub = None, 0
@@ -259,7 +283,7 @@ def run(rep: vk.Report):
         rep.violation({"kind": "correspondence", "obligation": "wrapper outcome = model post_minimize (SolveWrap.v)",
                        "case": cases.terms[i][:4000], "meta": meta, "model": model,
                        "witness": meta if concrete else None}, concrete=concrete)
-    tried, found = real_solver_search(rep, rng, 39 if rep.tier == "quick" else 400)
+    tried, found = real_solver_search(rep, rng, 60 if rep.tier == "quick" else 600)
     cov = rep.coverage
     cov["evaluations"] = len(cases.terms) + tried
     cov["distinct_nontrivial"] = cases.nontrivial
